@@ -70,7 +70,9 @@ type Case struct {
 	// Syntax chooses the presentation of the selection sets in the document (see syntax.go):
 	// 0 = one field per response key; otherwise the seed of the un-collected presentation.
 	Syntax uint64 `json:"syntax,omitempty"`
-	Note   string `json:"note,omitempty"`
+	// CancelAt = k > 0: the k-th resolver called cancels the request's context (see cancel.go).
+	CancelAt int    `json:"cancel_at,omitempty"`
+	Note     string `json:"note,omitempty"`
 }
 
 const AllMask = ^uint64(0)
